@@ -68,10 +68,6 @@ def run(gen, seed, n_ops=60):
             g2 = rnd.choice((4, 5))
             other = AW.ModelWorld(g2, loop, net, log, c10.installation(g2, rnd), C.Knobs(),
                                   host="10.0.0.2")
-            if await other.init_and_sync() is not True:
-                v("C09", "second-client-init-fails")
-                return
-            other_t0.append(loop.time())
             bump("sessions_with_a_second_client")
         causes = []          # instants at which a fault / outage was caused or ended
         shutdown_spans = []  # (t0, t1) of shutdown() calls
@@ -116,6 +112,12 @@ def run(gen, seed, n_ops=60):
 
         if not await start_life(True):
             return
+        if other is not None:
+            # (the second client comes up after the first)
+            if await other.init_and_sync() is not True:
+                v("C09", "second-client-init-fails")
+                return
+            other_t0.append(loop.time())
         lives = 1
         for i in range(n_ops):
             out["op"] = i
